@@ -23,6 +23,7 @@ rule('C06.8')(c13.memo_key)
 rule('C06.9')(c17.builders_pure)
 rule('C06.10')(c15.accumulator_provenance)
 rule('C06.11')(c16.per_evaluation_accumulators)
+rule('C06.12')(c17.no_state_in_builders)
 
 # C20: per-call frames, roots and evaluation state
 rule('C20.5')(c07.per_call_roots)
@@ -31,6 +32,9 @@ rule('C20.7')(c06.per_evaluation_state)
 rule('C20.8')(c06.closed_inventory)
 rule('C20.9')(c16.per_evaluation_accumulators)
 rule('C20.10')(c08.arg_mode_bracketed)
+rule('C20.11')(c07.caller_scope_copied)
+rule('C20.12')(c06.specs_not_written)
+rule('C20.13')(c17.no_state_in_builders)
 
 # C16 / C15: accumulators
 rule('C16.7')(c15.accumulator_provenance)
@@ -40,3 +44,6 @@ rule('C13.8')(c06.closed_inventory)
 
 # C17: spec immutability in general
 rule('C17.8')(c06.specs_not_written)
+
+# C02: the argument valuator's memo must be per call (no class / module level containers)
+rule('C02.9')(c06.closed_inventory)
